@@ -160,5 +160,16 @@ def run(F, R, tier):
             ne = [c for (a, c, _, _) in q.decisions if a[0] == "nonempty" and "deserialize" in SY.fmt(a[1])]
             okd = okd and ne == [True]
         r4.require(okd, (fn, "empty"), "deserialize_non_empty_set does not reject an empty set")
+        # … and what it returns is the very set OrderedSet's own (duplicate-rejecting, C19-R3) deserialisation produced: not a set rebuilt
+        # from a list with the de-duplicating constructor (FromIterator), which would accept `["a","b","a"]`
+        for q in tab.ok():
+            ds = [e for e in q.calls(r"ordered_set::OrderedSet as serde(_core)?::de::Deserialize>::deserialize$") if q.succeeded(e) is True]
+            good = len(ds) == 1 and SR.pure(q.ret, ("payload", ds[0].result.t, "Ok", 0))
+            if not good:
+                # the other duplicate-rejecting constructor (C19-R3): OrderedSet::try_from(<deserialised Vec>) ✓
+                tf = [e for e in q.calls(r"ordered_set::OrderedSet as core::convert::TryFrom<alloc::vec::Vec(<.*>)?>>::try_from$") if q.succeeded(e) is True]
+                dv = [e for e in q.calls(r"::deserialize$") if q.succeeded(e) is True]
+                good = len(tf) == 1 and len(dv) == 1 and SR.pure(tf[0].args[0], ("payload", dv[0].result.t, "Ok", 0)) and SR.pure(q.ret, ("payload", tf[0].result.t, "Ok", 0))
+            r4.require(good, (fn, "own-deserialize"), "deserialize_non_empty_set does not return the set produced by OrderedSet::deserialize ✓ (the duplicate-rejecting reader): %s" % SY.fmt(SY.term(q.ret))[:160])
         r4.site("deserialize_non_empty_set: Ok only for a non-empty deserialised set: %s" % okd)
     r4.floor(10)
